@@ -73,7 +73,7 @@ type c04State struct {
 
 func checkC04(c *Ctx) {
 	r, p := c.R, c.P
-	r.Explanation = "Decides structural necessary conditions of C04 on package cron (parser.go, spec.go, constantdelay.go, doc.go). Only exported API names (Parser.Parse, ParseStandard, ParseOption constants, SpecSchedule and its fields, SpecSchedule.Next, ConstantDelaySchedule, Every) and the standard library are used as anchors; every unexported function, type, field, variable and constant is resolved by ROLE through types and dataflow (the field-table type = the struct with two unsigned fields and a name map of which package-level tables exist, min/max told apart by the table contents; the table of field F = the table Parse parses column F with; the column-order and default lists by their types; the normaliser, the column parser and the descriptor function by the types of the calls Parse makes; the bit-set builder by its signature; the star bit = the constant Next masks Dom/Dow with). Values are compared as TERMS in which same-package callees (functions, methods, closures) are inlined and merges become choices, so a test, step or reset is recognised wherever it is written; branch facts include short-circuit booleans evaluated to a value; validation helpers are consulted through their success returns. Calls through function values whose targets are visible in the package (locals, elements of literal slices/arrays/maps, func-typed fields and package-level variables, closure parameters) and through single-implementation interfaces are followed. Where the shape defeats the term view, the code is interpreted abstractly instead: the package initialiser is evaluated to obtain literal tables (arrays of field tables, maps of builder functions) and Parser.Parse is evaluated on a symbolic expression along every branch, with the normaliser, the column parser and the descriptor function kept as symbolic applications — so an accumulator struct with an index, a loop over a table of field tables or a map of constructors give the same pairing as six closure calls. Search loops may live in phase helpers of Next (a carry is then a return whose boolean result Next branches on to restart the search) and their variables in fields of a local struct (the reaching store is followed); the field-table struct may nest/embed its limits. Function values are resolved in their calling context (a parameter is what the call that entered the function passed, a factory's result is the closure its return makes, with the factory's arguments bound), and variables captured by closures are followed as memory: the content at a point is the last store or the effect of the last call of a closure that writes the variable (which closures write a variable is read off the program text; a call that is handed function values while another writer exists makes the content unknown), so search state kept in captured variables and resets/steps/fix-ups done by closures handed to closures are seen as if written in line. A struct field whose address is kept (a table of output pointers) is not given a content by the term view; the abstract interpretation of Parse follows the pointers instead. " +
+	r.Explanation = "Decides structural necessary conditions of C04 on package cron (parser.go, spec.go, constantdelay.go, doc.go). Only exported API names (Parser.Parse, ParseStandard, ParseOption constants, SpecSchedule and its fields, SpecSchedule.Next, ConstantDelaySchedule, Every) and the standard library are used as anchors; every unexported function, type, field, variable and constant is resolved by ROLE through types and dataflow (the field-table type = the struct with two unsigned fields and a name map of which package-level tables exist, min/max told apart by the table contents; the table of field F = the table Parse parses column F with; the column-order and default lists by their types; the normaliser, the column parser and the descriptor function by the types of the calls Parse makes; the bit-set builder by its signature; the star bit = the constant Next masks Dom/Dow with). Values are compared as TERMS in which same-package callees (functions, methods, closures) are inlined and merges become choices, so a test, step or reset is recognised wherever it is written; branch facts include short-circuit booleans evaluated to a value; validation helpers are consulted through their success returns. Calls through function values whose targets are visible in the package (locals, elements of literal slices/arrays/maps, func-typed fields and package-level variables, closure parameters) and through single-implementation interfaces are followed. Where the shape defeats the term view, the code is interpreted abstractly instead: the package initialiser is evaluated to obtain literal tables (arrays of field tables, maps of builder functions) and Parser.Parse is evaluated on a symbolic expression along every branch, with the normaliser, the column parser and the descriptor function kept as symbolic applications — so an accumulator struct with an index, a loop over a table of field tables or a map of constructors give the same pairing as six closure calls. Search loops may live in phase helpers of Next (a carry is then a return whose boolean result Next branches on to restart the search) and their variables in fields of a local struct (the reaching store is followed); the field-table struct may nest/embed its limits. Function values are resolved in their calling context (a parameter is what the call that entered the function passed, a factory's result is the closure its return makes, with the factory's arguments bound), and variables captured by closures are followed as memory: the content at a point is the last store or the effect of the last call of a closure that writes the variable (which closures write a variable is read off the program text; a writer handed to a function or closure as a callback is followed to where the callee calls it, through the frames in between; only a call whose target is not known and that is handed function values makes the content unknown), so search state kept in captured variables and resets/steps/fix-ups done by closures handed to closures are seen as if written in line. A struct field whose address is kept (a table of output pointers) is not given a content by the term view; the abstract interpretation of Parse follows the pointers instead. " +
 		"Tables (E6): the table each column is parsed with equals that column's row of the 'Allowed values' table of doc.go (seconds: the range of time.Time.Second) and stays below the star bit; month/weekday names map to the numbering of time.Month/time.Weekday; the column order list names the six fields in expression order and each default lies within its table; an omitted optional column is filled with the default of its own field at its own end; the seven predefined schedules of the descriptor function, folded to constants, equal the 'Equivalent To' column of doc.go in the encoding Next reads (value v = bit 1<<v, '*' = documented range plus star bit). " +
 		"Pairing: Parse builds SpecSchedule.F from normalised column #i with places[i] = F; Next and its callees test SpecSchedule.F against the time.Time accessor of F; the day rule (a function, method or the code of Next itself), evaluated symbolically for all 16 assignments of (dom matches, dow matches, dom has star, dow has star), is 'both' when a star is present and 'either' otherwise. " +
 		"Search (minimality): for every search loop of Next, from the term of the instant the loop continues with: it continues while the bit is clear, advances by at most one unit (Add/AddDate/Date(field+1)), sets all lower-order fields to their minimum in the same iteration (before the step, for months) without clearing the field being searched itself (a Truncate coarser than the loop's field restarts the search before t), and on a carry goes back to the top of the search; the carry test must look at the instant the loop continues with (no further Add/AddDate between test and next iteration) and must still fire when the smallest value of the field does not exist on the wall clock (DST gap at local midnight / 30-minute DST); a calendar step (AddDate / Date(field+1)) of the month and day loops is followed by an adjustment that reads the stepped instant (the not-midnight fix-up: the local midnight aimed at may not exist), and a day step by a fixed duration (Add) is only accepted if the wall clock is rebuilt after it; in the month and day loops an adjustment that moves the stepped instant BACKWARD (Add of a provably non-positive amount, by interval arithmetic over accessor ranges) — it can fall back out of the month/day just entered when the step landed after a gap, on 01:00 — must either be dropped when the unit (Month()/Day()) of the adjusted and of the unadjusted instant differ, or be followed by a progress guard that compares the unit of the value arrived at with that of the pre-step value and, when they agree, continues from the pre-step value by forward steps only (a walk 'for same day { t = t.Add(hour) }' inside the iteration is read as a recursive term); a month-loop reset time.Date(y, m, 1, 0, ...) that feeds a calendar step must be adjusted in between by something that reads the reset's result (it can be 23:00 of the previous month), or the day of the month be repaired after the step; the search starts exactly at t truncated to the second plus one second, gives up with the zero time only for calendar years beyond start year + 5, converts into SpecSchedule.Location and builds every date in a location that can be the schedule's (SpecSchedule.Location, or the zone of an instant converted into it; the caller's zone alone is a violation); every SpecSchedule of the descriptor function carries the location parameter; Parse stores/hands on the time.LoadLocation result of a TZ=/CRON_TZ= prefix or time.Local. " +
